@@ -25,4 +25,8 @@ theorem createValidatesName : Facts.createValidatesName = some 1 := rfl
 
 theorem constructorValidation : Facts.constructorValidation = some "{ switch options.Quantization { case 0, 4, 8, 16, 32, 64: default: return nil, fmt.Errorf(\"unsupported quantization %d (supported: 4, 8, 16, 32, 64)\", options.Quantization) } if options.DimensionCount <= 0 { return nil, fmt.Errorf(\"dimension count must be positive, got %d\", options.DimensionCount) } if options.DistanceMethod != Euclidean && options.DistanceMethod != Cosine { return nil, fmt.Errorf(\"unsupported distance method\") } }" := rfl
 
+/-- record ids in request paths are parsed as unsigned 64-bit decimals (the model's `parseId`) -/
+theorem rest_id_parsers : Facts.restIdParsers = some ["rest.go:handleDeleteRecord: strconv.ParseUint(parts[6], 10, 64)",
+    "rest.go:handleUpdateMetadata: strconv.ParseUint(parts[len(parts)-2], 10, 64)"] := rfl
+
 end Syzgy.Tie.Rest
